@@ -240,7 +240,7 @@ def cases(tier, seed):
         for lidx, plen in enumerate(LENGTHS):
             out.append(dict(id='roundtrip-%s-%d' % (kind, plen), kind='roundtrip', cose=kind, plen=plen, seed=seed * 211 + idx, reps=4 if thorough else 1))
             idx += 1
-        reps = 10 if thorough else 2
+        reps = 24 if thorough else 2
         for rep in range(reps):
             out.append(dict(id='flips-%s-%d' % (kind, rep), kind='flips', cose=kind, seed=seed * 101 + idx, limit=None if (thorough or rep == 0) else 900))
             out.append(dict(id='fields-%s-%d' % (kind, rep), kind='fields', cose=kind, seed=seed * 103 + idx))
